@@ -647,6 +647,13 @@ class Interp(object):
                     'invariant' % (env.module.name, s.lineno))
             yield from self.cut_for(s, env, it, annot, key)
             return
+        if annot is not None and (annot.variant is not None or
+                                  isinstance(it, RangeV)):
+            # an invariant written for another form of this loop (e.g. a
+            # `while` with a counter that became `for i in range(n)`)
+            raise ContractOutOfDate(
+                'the loop annotation of %s.%s/loop%d was written for a '
+                'different form of the loop' % key)
         n = 0
         for x in self.iterate(it):
             n += 1
